@@ -50,8 +50,12 @@ for p in props:
             "technique": m["technique"],
         })
     else:
-        man["not_applicable"].append({"property_id": pid, "reason": "not claimed yet: the TLA+ module and its binding for this property "
-                                      "(designed in DESIGN.md section 5) have not been built/validated in this round"})
+        edge = pid in ("C01", "C02", "C08", "C09", "C31")
+        man["not_applicable"].append({"property_id": pid, "reason": (
+            "not claimed: at the edge of what an explicit TLA+ specification can express (text notations / float rounding / XML and PBKDF2); "
+            "no validated check exists - see DESIGN.md section 0.3" if edge else
+            "not claimed yet: the TLA+ module and its binding for this property (designed in DESIGN.md section 5) have not been built and "
+            "validated; an unvalidated check would be worse than none - see DESIGN.md section 0.3")})
 (ROOT / "MANIFEST.json").write_text(json.dumps(man, indent=1) + "\n")
 import subprocess
 r = subprocess.run(["python3-vt", "-c", "import json,jsonschema;jsonschema.validate(json.load(open('%s')), json.load(open('/root/.vp/MANIFEST.schema.json')))" % (ROOT / "MANIFEST.json")], capture_output=True, text=True)
